@@ -10,6 +10,7 @@ import (
 	"fmt"
 	"runtime/debug"
 	"strings"
+	"unicode/utf8"
 	refcbor "verif/lib/ref/cbor"
 	"verif/lib/schemagen"
 
@@ -72,31 +73,37 @@ func FeedTyped(proto datamodel.NodePrototype, ts *rs.TypeSystem, t *rs.Type, v m
 
 // HasComplexKeys reports typed maps with non-string key types anywhere below t.
 func HasComplexKeys(ts *rs.TypeSystem, t *rs.Type) bool {
-	return hasComplexKeys(ts, t, map[string]bool{})
+	return hasComplexKeys(ts, t, map[string]bool{}, false)
 }
 
-func hasComplexKeys(ts *rs.TypeSystem, t *rs.Type, seen map[string]bool) bool {
+// HasStructKeys reports typed maps whose key type is a struct anywhere below t: a type-level input for those
+// cannot be written as a plain tree (the key is a map there). Enum keys can: they are the member names.
+func HasStructKeys(ts *rs.TypeSystem, t *rs.Type) bool {
+	return hasComplexKeys(ts, t, map[string]bool{}, true)
+}
+
+func hasComplexKeys(ts *rs.TypeSystem, t *rs.Type, seen map[string]bool, structOnly bool) bool {
 	if t == nil || seen[t.Name] {
 		return false
 	}
 	seen[t.Name] = true
 	switch t.Kind {
 	case "map":
-		if ts.T(t.KeyType).Kind != "string" {
+		if k := ts.T(t.KeyType).Kind; k != "string" && !(structOnly && k == "enum") {
 			return true
 		}
-		return hasComplexKeys(ts, ts.T(t.ValueType), seen)
+		return hasComplexKeys(ts, ts.T(t.ValueType), seen, structOnly)
 	case "list":
-		return hasComplexKeys(ts, ts.T(t.ValueType), seen)
+		return hasComplexKeys(ts, ts.T(t.ValueType), seen, structOnly)
 	case "struct":
 		for _, f := range t.Fields {
-			if hasComplexKeys(ts, ts.T(f.Type), seen) {
+			if hasComplexKeys(ts, ts.T(f.Type), seen, structOnly) {
 				return true
 			}
 		}
 	case "union":
 		for _, m := range t.Members {
-			if hasComplexKeys(ts, ts.T(m), seen) {
+			if hasComplexKeys(ts, ts.T(m), seen, structOnly) {
 				return true
 			}
 		}
@@ -375,7 +382,7 @@ func CheckViews(rep Reporter, eng Engine, ts *rs.TypeSystem, t *rs.Type, tv mode
 		in = model.Val{K: model.KMap, M: es}
 	}
 	var n1 datamodel.Node
-	if hasComplexKeys(ts, t, map[string]bool{}) {
+	if hasComplexKeys(ts, t, map[string]bool{}, false) {
 		n1 = check("the type-level builder", FeedTyped(typed, ts, t, in))
 	} else {
 		n1 = check("the type-level builder", Feed(typed, in))
@@ -698,7 +705,28 @@ func Mutate(r *fw.RNG, v model.Val) Mutation {
 				name = "enum member by its other name"
 				return model.String(other)
 			}
-			switch r.Intn(5) {
+			switch r.Intn(7) {
+			case 5:
+				// characters slipped in right behind a leading word (a union discriminant, an enum name) and in
+				// front of the first delimiter: "s:v" -> "sx:v" (round-3 seed C09-8: a stringprefix union that
+				// matches its discriminant by prefix)
+				if len(x.S) > 0 {
+					i := strings.IndexAny(x.S, ":,/-")
+					if i <= 0 || r.Chance(1, 4) {
+						i = 1 + r.Intn(len(x.S))
+					}
+					for i < len(x.S) && !utf8.RuneStart(x.S[i]) { // never split a character: the codecs carry text
+						i++
+					}
+					name = "characters inserted inside the string"
+					return model.String(x.S[:i] + []string{"x", "1", "ity", " ", "s"}[r.Intn(5)] + x.S[i:])
+				}
+			case 6:
+				if len(x.S) > 1 {
+					name = "string without its first character"
+					_, n := utf8.DecodeRuneInString(x.S)
+					return model.String(x.S[n:])
+				}
 			case 0:
 				name = "string with extra delimiter part"
 				return model.String(x.S + []string{":", ",", "--", "/"}[r.Intn(4)] + "q")
@@ -717,7 +745,8 @@ func Mutate(r *fw.RNG, v model.Val) Mutation {
 		case model.KInt:
 			if r.Bool() {
 				name = "integer out of enum range"
-				return model.Int(x.I + 1000)
+				// far out, and near enough to fit any Go integer kind that holds the enum
+				return model.Int([]int64{x.I + 1000, x.I + 3, x.I + 7, -1 - x.I, 100, 120}[r.Intn(6)])
 			}
 		}
 		for {
@@ -894,7 +923,7 @@ func CheckTypedReadback(rep Reporter, eng Engine, ts *rs.TypeSystem, t *rs.Type,
 			return
 		}
 		rep.Count("typed_assignnode_builds", 1)
-	case hasComplexKeys(ts, t, map[string]bool{}):
+	case hasComplexKeys(ts, t, map[string]bool{}, false):
 		o = FeedTyped(typed, ts, t, in)
 	default:
 		o = Feed(typed, in)
@@ -1173,7 +1202,9 @@ func CheckOtherLevelNames(rep Reporter, eng Engine, ts *rs.TypeSystem, t *rs.Typ
 		return
 	}
 	sig := eng.Name() + ":" + t.Kind + reprName(t)
-	ctx := func() string { return fmt.Sprintf("engine %s, type %s, value %s", eng.Name(), t.Name, clip(tv.Dump(), 400)) }
+	ctx := func() string {
+		return fmt.Sprintf("engine %s, type %s, value %s", eng.Name(), t.Name, clip(tv.Dump(), 400))
+	}
 	// the representation node of the valid value
 	o := Feed(reprP, rv)
 	if !o.Accepted {
